@@ -89,6 +89,10 @@ P["bad_tag_inside_lookahead"] = "Feature: L\n  Scenario: s\n    Given x\n  @good
 P["many_errors_inside_lookahead"] = "Feature: L\n  Scenario: s\n    Given x\n" + "".join("    junk %d\n" % i for i in range(10)) + "  @good\n  @bad tag\n  Scenario: t\n"
 P["only_language_header"] = "# language: fr\n"
 P["md_eof_in_fence"] = "# Feature: M\n## Scenario: s\n* Given x\n````\nfour ticks open\n"
+P["cellless_tables"] = (
+    "@f\nFeature: C\n  Background:\n    Given b\n      |\n  @o\n  Scenario Outline: o\n    Given <a> step\n      |\n      |\n    When w\n"
+    "    @e\n    Examples:\n      |\n      |\n      |\n    Examples: second\n      | a |\n      | 1 |\n"
+)
 
 if __name__ == "__main__":
     d = os.path.join(os.path.dirname(os.path.abspath(__file__)), "..", "pool")
